@@ -1,9 +1,61 @@
 import HedVerif.Driver.Util
+import HedVerif.Model.Query
 open Lean
 namespace HedVerif.Driver.C15
 open HedVerif HedVerif.Driver
 
-/-- requests `{"op":"c15.<name>", ...}` of property C15 (stub: none yet) -/
-def handle (_op : String) (_j : Json) : Option (Except String Json) := none
+def errName : Query.ParseErr → String
+  | .nextToken => "nextToken" | .trailing => "trailing" | .missingParen => "missingParen"
+  | .missingBracket => "missingBracket" | .missingCurly => "missingCurly"
+  | .negWildcard => "negWildcard" | .negInExact => "negInExact" | .unexpected => "unexpected"
+  | .fuel => "fuel"
+
+/-- a node `["t", id, str, fold, orgFold, [terms]]` or `["g", id, [kids]]` -/
+partial def nodeOf (j : Json) : Except String Query.Node := do
+  let a ← asArr j
+  match a with
+  | [Json.str "t", i, s, f, o, ts] =>
+    let terms ← (← asArr ts).mapM asStr
+    pure (.tag ⟨← asNat i, ← asStr s, ← asStr f, ← asStr o, terms⟩)
+  | [Json.str "g", i, ks] =>
+    let kids ← (← asArr ks).mapM nodeOf
+    pure (.group (← asNat i) true kids)
+  | _ => throw "bad tree node"
+
+/-- the `HedString`: `{"id": n, "kids": [...]}` -/
+def treeOf (j : Json) : Except String Query.Tree := do
+  let kids ← (← getArr j "kids").mapM nodeOf
+  pure ⟨← getNat j "id", kids⟩
+
+def resJson (r : Query.Result) : Json :=
+  jarr [jnat r.group.id, jarr (r.tags.map (fun n => jnat n.id))]
+
+def tokJson (t : Query.Token) : Json := jarr [Json.str (toString (repr t.kind)), jstr t.text]
+
+/-- `c15.parse {text}` → parse outcome; `c15.eval {text, tree}` → outcome, match, results;
+`c15.tok {text}` → token texts.  `legacy: true` selects the code before the repair. -/
+def handle (op : String) (j : Json) : Option (Except String Json) :=
+  match op with
+  | "c15.tok" => some do
+      let s ← getStr j "text"
+      let legacy := getBoolD j "legacy" false
+      pure <| jarr ((Query.tokenizeWith legacy (Query.asciiFold s)).map (fun t => jstr t.text))
+  | "c15.parse" => some do
+      let s ← getStr j "text"
+      let legacy := getBoolD j "legacy" false
+      match Query.parseWith legacy s with
+      | .ok _ => pure <| jobj [("ok", jbool true), ("err", Json.null)]
+      | .error e => pure <| jobj [("ok", jbool false), ("err", Json.str (errName e))]
+  | "c15.eval" => some do
+      let s ← getStr j "text"
+      let legacy := getBoolD j "legacy" false
+      let t ← treeOf (← getVal j "tree")
+      match Query.parseWith legacy s with
+      | .ok e =>
+        let rs := Query.eval e t
+        pure <| jobj [("ok", jbool true), ("err", Json.null), ("match", jbool (Query.isMatch e t)),
+                      ("results", jarr (rs.map resJson))]
+      | .error e => pure <| jobj [("ok", jbool false), ("err", Json.str (errName e))]
+  | _ => none
 
 end HedVerif.Driver.C15
